@@ -38,10 +38,11 @@ def _m():
         action = [reward, terminate-flag, truncate-flag, u_0 .. u_{d-1}];  x' = 0.5 x + u;  obs = [x', 0.1 k].
         The action that reaches this environment is recorded in gs.aux['applied'] (aux survives auto-resets)."""
 
-        def __init__(self, low, high, d):
+        def __init__(self, low, high, d, off=None):
             self.low = jnp.asarray(low, dtype=jnp.float32)
             self.high = jnp.asarray(high, dtype=jnp.float32)
             self.d = d
+            self.off = off  # optional extra observation feature off + 0.5 tanh(x_0): a large offset with a small spread
             self.params = {}  # read by AutoResetWrapper(fixed_init=False)
             self.max_steps = 10_000
 
@@ -49,10 +50,14 @@ def _m():
             return rl.Box(self.low, self.high)
 
         def observation_space(self, gs):
-            return rl.Box(-jnp.ones(self.d + 1) * 1e3, jnp.ones(self.d + 1) * 1e3)
+            n = self.d + 1 + (0 if self.off is None else 1)
+            return rl.Box(-jnp.ones(n) * 1e4, jnp.ones(n) * 1e4)
 
         def _obs(self, x, k):
-            return jnp.concatenate([x, jnp.asarray([0.1], dtype=jnp.float32) * k])
+            o = jnp.concatenate([x, jnp.asarray([0.1], dtype=jnp.float32) * k])
+            if self.off is not None:
+                o = jnp.concatenate([o, jnp.float32(self.off) + 0.5 * jnp.tanh(x[:1])])
+            return o
 
         def reset(self, rng=None):
             rng = jax.random.PRNGKey(0) if rng is None else rng
@@ -417,8 +422,10 @@ def run_vector_history(inner_factory, inner_layers, norm_layers, B, zs_batch, lo
         e_count = C0 + N
         e_mean = S1 / e_count
         e_var = (C0 + S2) / e_count - e_mean**2
-        scale = 1.0 + S2 / e_count
-        if abs(count - e_count) > 1e-3 or not _close(mean, e_mean, 1e-4, 1e-4) or not bool(onp.all(onp.abs(var - e_var) <= 2e-4 * scale)):
+        # float32 tolerance of an exact-moment algorithm: relative to the variance itself, plus a term far below float32's epsilon times
+        # the mean square (a two-pass / Welford-style update loses nothing to a large offset; E[x^2] - E[x]^2 in float32 would)
+        tolv = 2e-4 * (1.0 + onp.abs(e_var)) + 1e-4 + 2e-9 * (S2 / e_count)
+        if abs(count - e_count) > 1e-3 or not _close(mean, e_mean, 1e-4, 1e-4) or not bool(onp.all(onp.abs(var - e_var) <= tolv)):
             mon.fail("obs_moments", f"{tag}: running observation statistics count={count} mean={mean.tolist()} var={var.tolist()} but the exact moments of the {N} observations per feature seen so far "
                      f"(prior: weight 1e-4, mean 0, var 1) are count={e_count} mean={e_mean.tolist()} var={e_var.tolist()}; batches so far (feature 0)={[[round(r[0], 4) for r in b] for b in obs_batches][:6]}", tag=tag)
         e_out = onp.clip((raw - mean) / onp.sqrt(var + 1e-8), -10.0, 10.0)
@@ -506,14 +513,17 @@ def vector_histories(seed, n, search=False):
             low, high = rand_bounds(rnd, adim)
             bounded = any(l in ("squash", "nosquash", "clip") for l in inner_layers)
             gamma = rnd.choice([0.99, 0.9, 0.5, 1.0])
+            off = rnd.choice([None, None, 300.0, 3000.0]) if "normobs" in norm_layers else None
         T = rnd.randint(6, 40 if search else 24)
         per_env = [rand_history(rnd, adim, T, extremes=bounded)[0] for _ in range(B)]
         zs_batch = [[per_env[b][t] for b in range(B)] for t in range(T)]
         rng_seed = rnd.randint(0, 2**20)
-        replay = dict(fn="tasks_c19:vector_histories", seed=seed, n=n, search=search, case=case, inner_layers=inner_layers, norm_layers=norm_layers, B=B, low=low, high=high, gamma=gamma, rng_seed=rng_seed, zs=zs_batch)
-        mon = _Mon(f"layers(inner->outer)={inner_layers + ['vec'] + norm_layers} B={B} low={low} high={high} gamma={gamma} T={T}", replay)
+        replay = dict(fn="tasks_c19:vector_histories", seed=seed, n=n, search=search, case=case, inner_layers=inner_layers, norm_layers=norm_layers, B=B, low=low, high=high, gamma=gamma, rng_seed=rng_seed, zs=zs_batch, obs_offset=off)
+        mon = _Mon(f"layers(inner->outer)={inner_layers + ['vec'] + norm_layers} B={B} low={low} high={high} gamma={gamma} T={T} offset feature={off}", replay)
+        if off is not None:
+            cnt("offset_feature")
         try:
-            res = run_vector_history(lambda: g["FakeEnv"](low, high, d), inner_layers, norm_layers, B, zs_batch, low, high, rng_seed, gamma, mon, cache=cache)
+            res = run_vector_history(lambda: g["FakeEnv"](low, high, d, off), inner_layers, norm_layers, B, zs_batch, low, high, rng_seed, gamma, mon, cache=cache)
         except Exception as ex:
             import traceback
 
